@@ -4,7 +4,10 @@ hands to its transport is a well-formed FIX frame - or the send is refused.
 `run_part(ctx)` / `replay_part(ctx, rep)` are called by props/c02.py.
 
 (a) encoder: every message of the C01 generator (props/c01_gen.py) plus values
-    with non-ASCII text (Latin-1, BMP, CJK, astral, a lone surrogate) is encoded
+    with non-ASCII text (Latin-1, BMP, CJK, astral, a lone surrogate) plus messages
+    that cannot be represented as a frame at all (framing tags 8/9/35/10 in the tag
+    map, SOH in a value, tag spellings that are not FIX tag numbers, empty values,
+    empty MsgType - at message level and inside group items) is encoded
     by the real Codec.encode and turned into bytes exactly as
     AsyncFIXConnection.send_msg does (`.encode("utf-8")`);
 (b) transport: a small set of messages is sent through a real endpoint
@@ -30,6 +33,11 @@ CLAUSES = {
     "bodylength": "has a BodyLength equal to the number of bytes between the BodyLength field and the CheckSum field",
     "checksum": "a CheckSum equal to the sum of all preceding bytes modulo 256",
     "rejected": "so that an independent FIX parser accepts it",
+    "not_refused": "a message that cannot be represented this way is refused with an error instead of being "
+                   "transmitted (the bytes produced are not accepted by an independent FIX parser)",
+    "field_injected": "a message that cannot be represented this way is refused with an error instead of being "
+                      "transmitted (a value containing SOH was transmitted: the frame parses, but as a different "
+                      "message - the text after the SOH arrives as a field of its own)",
     "transmitted_despite_error": "a message that cannot be represented this way is refused with an error instead "
                                  "of being transmitted",
 }
@@ -42,7 +50,11 @@ def frame_failures(data):
     """[] if R1 accepts `data`, else list of (clause code, detail)."""
     fields, reason = refs.try_parse(data)
     if reason is None:
-        return []
+        # R1 takes any run of ASCII digits as a tag; a FIX tag number is a positive integer without leading zeros
+        bad = [t for t, _v in fields if t[:1] == "0"]
+        if not bad:
+            return []
+        reason = "tag_not_a_positive_integer_without_leading_zero"
     out = []
     h = _HEAD.match(data)
     t = _TRAILER.search(data)
@@ -67,13 +79,36 @@ def frame_failures(data):
     return out
 
 
+def injected_fields(spec, data):
+    """For an input with SOH inside a value whose frame R1 ACCEPTS: the pieces of that value which are on the
+    wire as fields of their own (the frame is well formed but it is not the message that was handed over)."""
+    if gen.unrep_class(spec) != "soh_in_value":
+        return []
+    fields, reason = refs.try_parse(data)
+    if reason is not None:
+        return []
+    wire = {t.encode() + b"=" + v for t, v in fields}
+    out = []
+    for _tag, v in gen.walk_fields(spec[2]):
+        if "\x01" in v:
+            for piece in v.split("\x01")[1:]:
+                if "=" in piece and piece.encode("utf-8", "replace") in wire:
+                    out.append(piece)
+    return out
+
+
 def has_non_ascii(spec):
     return any(not v.isascii() for _t, v in gen.walk_fields(spec[2]))
 
 
 def encode_bytes(spec, S, T, stats):
     """('refused', exc) | ('bytes', data) - the real encoder + send_msg's conversion."""
-    msg, sess, raw = gen.build(spec, S, T)
+    try:
+        msg, sess, raw = gen.build(spec, S, T)
+    except Exception as e:  # noqa
+        if gen.unrep_class(spec) is None:
+            raise
+        return "refused", e  # the container already refuses the unrepresentable piece
     stats["encode_calls"] += 1
     c01._prime(sess)  # the shared Codec first serves another session with the same key and other CompIDs
     try:
@@ -94,11 +129,17 @@ def evaluate(spec, S, T, stats):
         return [], ("refused", type(x).__name__)
     stats["evaluations"] += 1
     fails = frame_failures(x)
+    inj = injected_fields(spec, x) if not fails else []
+    if inj:
+        fails = [("field_injected", {"injected_fields": inj, "reference_parser_reason": None})]
     return [(c, "enc", dict(d, frame=x if len(x) < 300 else x[:300])) for c, d in fails], (
         "accepted" if not fails else "malformed", "non_ascii" if has_non_ascii(spec) else "ascii")
 
 
 def signature_for(spec, S, T, code, prefix="frame_malformed"):
+    u = gen.unrep_class(spec)
+    if u is not None:
+        return f"{prefix}|{u}:{code}", spec
     if has_non_ascii(spec):
         return f"{prefix}|non_ascii_value:{code}", spec
     st = c01._new_stats()
@@ -111,7 +152,15 @@ def signature_for(spec, S, T, code, prefix="frame_malformed"):
     return f"{prefix}|{gen.cause_label(small)}:{code}", small
 
 
+def _fixed_cause(sig):
+    """Signatures whose cause class is read off the input directly (no shrinking, never collapsed)."""
+    return "|non_ascii_value:" in sig or any(f"|{u}:" in sig for u in gen.UNREP_CLASSES)
+
+
 def _coarse(spec):
+    u = gen.unrep_class(spec)
+    if u is not None:
+        return ("unrepresentable", u)
     if has_non_ascii(spec):
         return ("non_ascii",)
     return gen.coarse_class(spec)
@@ -129,7 +178,7 @@ def _work(unit):
     n_ill = 0
     sample = None
     for spec in gen.expand(unit):
-        if not gen.valid(spec):
+        if not gen.valid(spec) and not (unit[0] == "unrep" and gen.unrep_class(spec) is not None):
             ill = ill or [gen.to_json(spec), gen.well_formed(spec[2])]
             n_ill += 1
             continue
@@ -137,7 +186,7 @@ def _work(unit):
         if sample is None:
             sample = spec
         digs.append(gen.digest(spec))
-        if has_non_ascii(spec) or spec[3] != "alloc" or len(spec[0]) > 1:
+        if has_non_ascii(spec) or spec[3] != "alloc" or len(spec[0]) != 1 or unit[0] == "unrep":
             nontriv += 1
         fails, outcome = evaluate(spec, S, T, st)
         outcomes.add(outcome)
@@ -169,7 +218,12 @@ def make_violation(sig, code, spec_json, small_json, detail, S, T, part, count=1
     if small_json is not None and small_json != spec_json:
         d["minimised_input"] = small_json
     d["session"] = {"sender": S, "target": T}
-    return {"signature": sig, "clause": CLAUSES[code], "detail": d,
+    clause = CLAUSES[code]
+    u = gen.unrep_class(gen.from_json(spec_json))
+    if u is not None and code != "transmitted_despite_error":
+        clause = CLAUSES["not_refused"] + " - here: " + clause
+        d["why_not_representable"] = u
+    return {"signature": sig, "clause": clause, "detail": d,
             "replay": {"part": part, "spec": spec_json, "S": S, "T": T}, "count": count}
 
 
@@ -196,14 +250,37 @@ def transport_specs():
         out.append(gen.spec_of((("11", None), ("58", a), ("55", None))))
         if "453" in gen.TABLE.rg and gen.TABLE.rg["453"][0] == "448":
             out.append(gen.spec_of((("453", ((("448", a),), (("448", None),))),)))
-    return [s for s in out if gen.valid(s)]
+    out = [s for s in out if gen.valid(s)]
+    # messages that cannot be represented: must be refused before anything is written
+    for k in gen.UNREP_CLASSES:
+        pool = list(gen.expand(("unrep", k)))
+        pick = [pool[0], pool[len(pool) // 2], pool[-1]]
+        if k == "framing_tag_in_message":
+            pick += [sp for sp in pool if sp[3] == "forward"][:1] + [sp for sp in pool if sp[2][0][0] == "10"][:1]
+        if k == "soh_in_value":
+            pick += [sp for sp in pool if "8=FIX.4.4" in sp[2][0][1]][:1]
+        for sp in dict.fromkeys(pick):
+            if sp[3] in ("alloc", "forward", "possdup"):
+                out.append(sp)
+    return out
 
 
-def transport_case(spec, S, T, stats):
-    """Send one message through a real acceptor endpoint. Returns (failures, outcome, frames)."""
+def disconnect_specs():
+    """Logout texts handed to disconnect(): (spec of the Logout that would be built, text)."""
+    return [gen.spec_of((("58", t),), t="5") for t in ("bye", "bye\x01now", "x\x0110=000\x018=FIX.4.4\x019=5\x0135=5")]
+
+
+def transport_case(spec, S, T, stats, via_disconnect=False):
+    """Send one message through a real acceptor endpoint (or, via_disconnect, hand its Text to disconnect()
+    as logout_message). Returns (failures, outcome, frames)."""
     from mc.world import World1
 
-    msg, _sess, raw = gen.build(spec, S, T)
+    try:
+        msg, _sess, raw = gen.build(spec, S, T)
+    except Exception as e:  # noqa
+        if gen.unrep_class(spec) is None:
+            raise
+        return [], ("refused_by_container", type(e).__name__), []
     if raw:
         raise HarnessError("transport half does not use raw_seq_num specs")
     w = World1("acceptor", S=S, T=T)
@@ -213,8 +290,16 @@ def transport_case(spec, S, T, stats):
         pre = w.take()
         if w.c.connection_state.name != "ACTIVE":
             raise HarnessError(f"transport half: endpoint not ACTIVE after logon ({w.c.connection_state.name})")
-        res = w.send(msg)
-        frames = w.take()
+        if via_disconnect:
+            from asyncfix import ConnectionState
+
+            writer = w.writer
+            seen = w.seen
+            res = w.call(w.c.disconnect(ConnectionState.DISCONNECTED_WCONN_TODAY, logout_message=spec[2][0][1]))
+            frames = writer.out[seen:]
+        else:
+            res = w.send(msg)
+            frames = w.take()
         stats["encode_calls"] += 1
     finally:
         w.close()
@@ -229,7 +314,11 @@ def transport_case(spec, S, T, stats):
                           {"send_raised": repr(res[1])[:200], "bytes_written": frames[0][:300]}))
         return fails, ("send_refused", type(res[1]).__name__), frames
     for fr in frames:
-        for c, d in frame_failures(fr):
+        ff = frame_failures(fr)
+        inj = injected_fields(spec, fr) if not ff else []
+        if inj:
+            ff = [("field_injected", {"injected_fields": inj, "reference_parser_reason": None})]
+        for c, d in ff:
             fails.append((c, "transport", dict(d, frame=fr[:300], send_result=res[0])))
     if not frames:
         return fails, ("nothing_written", res[0]), frames
@@ -242,7 +331,7 @@ def transport_signatures(spec, S, T, fails, collapsed=()):
     st = c01._new_stats()
     enc_fails, _ = evaluate(spec, S, T, st)
     enc_codes = {c for c, _w, _d in enc_fails}
-    cause = "non_ascii_value" if has_non_ascii(spec) else "ascii_message"
+    cause = gen.unrep_class(spec) or ("non_ascii_value" if has_non_ascii(spec) else "ascii_message")
     out = []
     seen_only = set()
     for code, where, detail in fails:
@@ -278,7 +367,7 @@ MAX_LABELS = 3
 def run_part(ctx):
     gen.configure(ctx.tier, ctx.seed)
     S, T = gen.ST
-    units = gen.units(include_non_ascii=True)
+    units = gen.units(include_non_ascii=True, include_unrepresentable=True)
     groups, tot = c01.explore(ctx, units, _work)
     if len(groups) > MAX_SHRINK_GROUPS:
         ctx.cap(f"C02 encoder half: more than {MAX_SHRINK_GROUPS} failing input classes; the rest is named "
@@ -289,12 +378,12 @@ def run_part(ctx):
     # MAX_LABELS differently-shaped minimal ASCII inputs, the shape is not the cause - report one signature
     labels = {}
     for (k, _v), (sig, _small) in zip(head, sigs):
-        if "|non_ascii_value:" not in sig:
+        if not _fixed_cause(sig):
             labels.setdefault(k[0], [])
             if sig not in labels[k[0]]:
                 labels[k[0]].append(sig)
     for (k, (cnt, spec_json, detail)), (sig, small) in zip(head, sigs):
-        if len(labels.get(k[0], ())) > MAX_LABELS and "|non_ascii_value:" not in sig:
+        if len(labels.get(k[0], ())) > MAX_LABELS and not _fixed_cause(sig):
             sig = f"frame_malformed|ascii_messages_of_various_shapes:{k[0]}"
         ctx.merge_violations([make_violation(sig, k[0], spec_json, small, detail, S, T, "enc", cnt)])
     for k, (cnt, spec_json, detail) in groups[MAX_SHRINK_GROUPS:]:
@@ -305,13 +394,17 @@ def run_part(ctx):
     tst = c01._new_stats()
     tspecs = transport_specs()
     n_frames = 0
-    for spec in tspecs:
-        fails, outcome, frames = transport_case(spec, S, T, tst)
+    dspecs = disconnect_specs()
+    for spec, part in [(s, "transport") for s in tspecs] + [(s, "transport_disconnect") for s in dspecs]:
+        fails, outcome, frames = transport_case(spec, S, T, tst, via_disconnect=part == "transport_disconnect")
         n_frames += len(frames)
-        ctx.outcomes.add(("transport",) + tuple(outcome))
+        ctx.outcomes.add((part,) + tuple(outcome))
         collapsed = {c for c, l in labels.items() if len(l) > MAX_LABELS}
         for sig, code, detail in transport_signatures(spec, S, T, fails, collapsed):
-            ctx.merge_violations([make_violation(sig, code, gen.to_json(spec), None, detail, S, T, "transport")])
+            if part == "transport_disconnect":
+                detail = dict(detail, via="disconnect(logout_message=<the Text value of the input>)")
+            ctx.merge_violations([make_violation(sig, code, gen.to_json(spec), None, detail, S, T, part)])
+    tspecs = tspecs + dspecs
 
     ctx.count(states=tot["states"] + len(tspecs), transitions=tot["encode_calls"] + len(tspecs), traces=tot["n"] + len(tspecs),
               evaluations=tot["evaluations"] + tst["evaluations"], nontrivial=tot["nontrivial"],
@@ -343,14 +436,14 @@ def replay_part(ctx, rep):
     gen.configure(ctx.tier, ctx.seed)
     S, T = rep["S"], rep["T"]
     spec = gen.from_json(rep["spec"])
-    if not gen.valid(spec):
+    if not gen.valid(spec) and gen.unrep_class(spec) is None:
         raise HarnessError(f"replay input is not a well-formed message: {gen.well_formed(spec[2])}")
     out = []
-    if rep.get("part") == "transport":
-        fails, _o, _f = transport_case(spec, S, T, c01._new_stats())
+    if rep.get("part") in ("transport", "transport_disconnect"):
+        fails, _o, _f = transport_case(spec, S, T, c01._new_stats(), via_disconnect=rep["part"] == "transport_disconnect")
         for sig, code, detail in transport_signatures(spec, S, T, fails):
-            out.append(make_violation(sig, code, rep["spec"], None, detail, S, T, "transport"))
-            if sig.startswith("frame_malformed|") and "|non_ascii_value:" not in sig:
+            out.append(make_violation(sig, code, rep["spec"], None, detail, S, T, rep["part"]))
+            if sig.startswith("frame_malformed|") and not _fixed_cause(sig):
                 out.append(make_violation(f"frame_malformed|ascii_messages_of_various_shapes:{code}", code,
                                           rep["spec"], None, detail, S, T, "transport"))
         return out
@@ -358,7 +451,7 @@ def replay_part(ctx, rep):
     for code, _w, detail in fails:
         sig, small = signature_for(spec, S, T, code)
         out.append(make_violation(sig, code, rep["spec"], gen.to_json(small), detail, S, T, "enc"))
-        if "|non_ascii_value:" not in sig:
+        if not _fixed_cause(sig):
             # the explorer may have reported this case under the collapsed signature (see run_part)
             out.append(make_violation(f"frame_malformed|ascii_messages_of_various_shapes:{code}", code, rep["spec"],
                                       gen.to_json(small), detail, S, T, "enc"))
